@@ -735,3 +735,164 @@ def _before(a: ast.AST, b: ast.AST) -> bool:
 
 def _contains(a: ast.AST, b: ast.AST) -> bool:
     return any(x is b for x in ast.walk(a))
+
+
+# ------------------------------------------------------------------------------------------------ TOKBND
+RECORD_REASON = ("the index is read from a record (delimiter.token / .end / .jump, a stack entry) that was written with an index "
+                 "valid at that moment; token and delimiter lists only grow while those records are alive (rule PUSH: only push "
+                 "adds tokens) - a data invariant of the delimiter machinery, not a bound the zone domain can carry")
+
+
+def _record_field(l: ast.AST) -> bool:
+    if isinstance(l, ast.Attribute) and l.attr in ("token", "end"):
+        return True
+    return isinstance(l, ast.Subscript) and isinstance(l.slice, ast.Constant) and isinstance(l.slice.value, str)
+
+
+def _record_index(f: Func, sub: ast.Subscript, bounds: "Bounds") -> bool:
+    """The index is a field of a record object (x.token, x.end, item['token']), a value popped from a list of such indices, or
+    one of those minus a constant.  With a *positive* offset it is accepted only next to an equality test of the same
+    expression against another record field (`delimiters[i - 1].end == startDelim.end + 1 and delimiters[startDelim.end + 1]...`)."""
+    e = sub.slice
+    ll = lin(e)
+    off = 0
+    l: ast.AST = e
+    while isinstance(l, ast.BinOp) and isinstance(l.op, (ast.Add, ast.Sub)) and isinstance(l.right, ast.Constant) and isinstance(l.right.value, int):
+        off += l.right.value if isinstance(l.op, ast.Add) else -l.right.value
+        l = l.left
+    rec = _record_field(l)
+    if not rec and isinstance(l, ast.Name):
+        from ..reach import Reaching
+        rds = Reaching(bounds.c.cfg(f)).at_ast(sub, l.id)
+        rec = bool(rds) and all(d.kind == "assign" and d.value is not None and (
+            _record_field(d.value) or (isinstance(d.value, ast.Call) and isinstance(d.value.func, ast.Attribute)
+                                       and d.value.func.attr == "pop" and not d.value.args)) for d in rds)
+    if not rec:
+        return False
+    if off <= 0:
+        return True
+    # positive offset: an equality with another record field in the same conjunction
+    txt = U(e)
+
+    def has_eq(bo: ast.AST) -> bool:
+        if isinstance(bo, ast.BoolOp) and isinstance(bo.op, ast.And):
+            for v in bo.values:
+                if isinstance(v, ast.Compare) and len(v.ops) == 1 and isinstance(v.ops[0], ast.Eq):
+                    a_, b_ = v.left, v.comparators[0]
+                    if (U(a_) == txt and _record_field(b_)) or (U(b_) == txt and _record_field(a_)):
+                        return True
+        return False
+    q = f.module.parents.get(sub)
+    while q is not None and q is not f.node:
+        if has_eq(q):
+            return True
+        if isinstance(q, ast.If) and isinstance(q.test, ast.Name) and any(x is sub for b_ in q.body for x in ast.walk(b_)):
+            # `if flag:` where flag is defined once, as a conjunction containing the equality
+            ds = bounds.defs.get(q.test.id)
+            if ds and len(ds) == 1 and ds[0] is not None and has_eq(ds[0]):
+                return True
+        q = f.module.parents.get(q)
+    return False
+
+
+# reviewed, keyed by function and alpha-normalised subscript
+TOK_EXEMPT = {
+    ("_postProcess", "state.tokens[L_expr_]"):
+        "strikethrough: j starts at i + 1 for a recorded lone-marker index i, is advanced only while j < len(state.tokens) and then "
+        "stepped back by one, so i <= j <= len - 1 when the two tokens are swapped",
+    ("processDelimiters", "P1[L_expr_]"):
+        "openerIdx starts strictly below the closer's index (headerIdx - jump - 1 with headerIdx <= closerIdx < len) and only "
+        "decreases; the loop condition keeps it above minOpenerIdx >= -1",
+    ("processDelimiters", "P1[L_expr_ - 1]"):
+        "guarded by openerIdx > 0 in the same conjunction; openerIdx is below the closer's index (see above)",
+}
+
+
+def rule_tokbnd(c: Ctx) -> RuleResult:
+    r = RuleResult("TOKBND", "every variable subscript of a token list or delimiter list is below the length of that list on every path "
+                             "(entailed by a dominating comparison / range / enumerate, inside try/except IndexError, the render-rule "
+                             "contract idx < len(tokens) validated at the dispatch, or an index stored in a record)")
+    LISTS = (("list", "Token"), ("list", "Delimiter"))
+    # contract of render-rule methods: (self, tokens, idx, options, env) with idx < len(tokens)
+    rr = set(c.reg.render_rules.values())
+    rt = c.p.cls("RendererHTML").methods.get("renderToken")
+    if rt is not None:
+        rr.add(rt)
+    # validate the contract where render rules are dispatched
+    n_disp = 0
+    for g, sites in c.cg.sites.items():
+        for cs in sites:
+            if not (cs.kind == "render-dispatch" or (rt is not None and rt in cs.callees and cs.kind == "method")):
+                continue
+            if len(cs.node.args) < 2:
+                continue
+            n_disp += 1
+            if g in rr and len(g.node.args.args) >= 3:
+                from ..facts import analyse as _an
+                from .prog_rules import contract_call_kills as _cck
+                ez = Facts()
+                ez.add(g.node.args.args[2].arg, f"len({g.node.args.args[1].arg})", -1)
+                cfg = c.cfg(g)
+                res = _an(cfg, ez, _cck(c, g), c.bool_summary)
+            else:
+                cfg, res = bnd_facts(c, g)
+            lst, idx = cs.node.args[0], cs.node.args[1]
+            l = lin(idx)
+            ok = False
+            if l is not None and l[0] is not None:
+                ok = True
+                for n in cfg.owner(cs.node):
+                    z = res.get(n.id)
+                    if z is not None and not z.entails(T(l[0]), f"len({U(lst)})", -1 - l[1]):
+                        ok = False
+            r.add(f"{g.short}|render-dispatch|{alpha(g, cs.node)[:60]}", c.where(g, cs.node), g.short, U(cs.node)[:80],
+                  "discharged" if ok else "violation",
+                  "render-rule contract established: the index passed is below len(tokens) (enumerate / range)" if ok else
+                  "a render rule is called with an index that is not known to be below the length of the token list it is given")
+    if n_disp < 3:
+        raise AnchorError(f"only {n_disp} render-rule dispatch sites found")
+    n_sites = 0
+    for f in sorted(c.cg.api_phase(), key=lambda x: x.qual):
+        sc = c.tf.scope(f)
+        subs = [n for n in own_nodes(f.node) if isinstance(n, ast.Subscript) and not isinstance(n.slice, ast.Slice)
+                and isinstance(n.ctx, ast.Load) and sc.type(n.value) in LISTS and lin(n.slice) is not None and lin(n.slice)[0] is not None]
+        # subscripts through Sequence[Token] parameters of render rules
+        if f in rr and len(f.node.args.args) >= 3:
+            tp = f.node.args.args[1].arg
+            subs += [n for n in own_nodes(f.node) if isinstance(n, ast.Subscript) and not isinstance(n.slice, ast.Slice) and isinstance(n.ctx, ast.Load)
+                     and isinstance(n.value, ast.Name) and n.value.id == tp and n not in subs and lin(n.slice) is not None and lin(n.slice)[0] is not None]
+        if not subs:
+            continue
+        r.functions += 1
+        entry = None
+        if f in rr and len(f.node.args.args) >= 3:
+            entry = Facts()
+            entry.add(f.node.args.args[2].arg, f"len({f.node.args.args[1].arg})", -1)
+        cfg = c.cfg(f)
+        from ..facts import analyse
+        from .prog_rules import contract_call_kills
+        res = analyse(cfg, entry, contract_call_kills(c, f), c.bool_summary)
+        bounds = Bounds(c, f)
+        for s_ in sorted(subs, key=lambda x: (x.lineno, x.col_offset)):
+            n_sites += 1
+            key = f"{f.short}|{alpha(f, s_)}"
+            where = c.where(f, s_)
+            if _in_try_indexerror(f, s_):
+                r.add(key, where, f.short, U(s_), "discharged", "inside a try whose handler catches IndexError")
+                continue
+            how = _by_facts(c, f, cfg, res, bounds, s_)
+            if how:
+                r.add(key, where, f.short, U(s_), "discharged", how + (" [render-rule contract idx < len(tokens)]" if entry is not None else ""))
+                continue
+            if _record_index(f, s_, bounds):
+                r.add(key, where, f.short, U(s_), "exempt", RECORD_REASON)
+                continue
+            ek = (f.short, alpha(f, s_))
+            if ek in TOK_EXEMPT and f.module.rel in ("rules_inline/strikethrough.py", "rules_inline/balance_pairs.py"):
+                r.add(key, where, f.short, U(s_), "exempt", TOK_EXEMPT[ek])
+                continue
+            r.add(key, where, f.short, U(s_), "violation",
+                  f"no bound established for index `{U(s_.slice)}` of the token / delimiter list `{U(s_.value)}` on some path: an input "
+                  f"that drives the index to the end of the list raises IndexError out of parse / render")
+    r.floor = 50
+    return r
